@@ -20,6 +20,7 @@ import (
 	"net/http/httptest"
 	"net/http/httputil"
 	"net/url"
+	"runtime"
 	"sort"
 	"strconv"
 	"strings"
@@ -91,8 +92,10 @@ type run struct {
 	capC int
 	ch   chan *ha.SyncMessage
 	// e2e
-	px *proxy
-	up bool
+	px        *proxy
+	up        bool // the harness asked for the link to be up (connect / gapconnect without a cut since)
+	streaming bool // the stream is attached (connect or release succeeded, no cut since)
+	gapPush   bool // a change was pushed between the last full sync and the stream attachment (D42's schedule)
 }
 
 func (comp) NewRun() hx.Run { return &run{} }
@@ -616,22 +619,31 @@ func (r *run) newE2E() string {
 	r.aStore, r.sStore = ha.NewInMemorySessionStore(), ha.NewInMemorySessionStore()
 	ac := ha.DefaultSyncConfig()
 	ac.NodeID, ac.Role, ac.ListenAddr = "A", ha.RoleActive, freeAddr()
+	// no periodic keep-alives during a sequence: every message the standby receives is then accounted for
+	// (one per full sync, one initial heartbeat per stream attachment, one per change)
+	ac.HeartbeatInterval = time.Hour
 	r.active = ha.NewHASyncer(ac, r.aStore, logger)
 	if err := r.active.Start(); err != nil {
 		return "error start"
 	}
 	// wait for the listener
-	for i := 0; i < 200; i++ {
+	if !waitFor(longWait, func() bool {
 		c, err := net.Dial("tcp", ac.ListenAddr)
 		if err == nil {
 			c.Close()
-			break
 		}
-		time.Sleep(5 * time.Millisecond)
+		return err == nil
+	}) {
+		return "error listen"
 	}
 	r.px = newProxy(ac.ListenAddr)
 	return "ok"
 }
+
+// No step of the end-to-end mode relies on a fixed sleep: every op waits for the condition it needs (observable
+// on the two syncers) with a generous bound and returns as soon as it holds, so a heavily loaded machine makes
+// the run slower, not different.
+const longWait = 90 * time.Second
 
 // waitFor polls cond for at most d
 func waitFor(d time.Duration, cond func() bool) bool {
@@ -659,15 +671,41 @@ func (r *run) startStandby() {
 // e2e ops.  One standby syncer object lives for the whole sequence; `cut` severs its TCP connections at
 // the proxy (and refuses new ones), `connect` lets it through again and waits for the syncer's own
 // reconnect (backoff 1 s + jitter, then performFullSync + connectToStream).
+func (r *run) received() uint64 {
+	if r.standby == nil {
+		return 0
+	}
+	return r.standby.Stats().MessagesReceived
+}
+
+// standbyHas reports whether the standby's store reflects a change to one session (v < 0: deleted)
+func (r *run) standbyHas(id string, v int) bool {
+	sess, ok := r.sStore.GetSession(id)
+	if v < 0 {
+		return !ok
+	}
+	return ok && valueOf(sess) == strconv.Itoa(v)
+}
+
+// attached waits until the stream is up on both ends: the standby reads it, the active has registered the
+// client channel, and the messages that precede it (full syncs, the initial heartbeat) have been counted
+func (r *run) attached(wantReceived uint64) bool {
+	return waitFor(longWait, func() bool {
+		return r.standby.IsConnected() && r.active.ClientCountForVerif() >= 1 && r.received() >= wantReceived
+	})
+}
+
 func (r *run) doE2E(f []string) string {
 	switch f[0] {
 	case "add", "update", "delete":
 		var err error
+		before := r.received()
+		v := -1
 		if f[0] == "delete" {
 			r.aStore.DeleteSession(f[1])
 			err = r.active.PushChange(ha.SyncTypeDelete, &ha.SessionState{SessionID: f[1]})
 		} else {
-			v, _ := strconv.Atoi(f[2][1:])
+			v, _ = strconv.Atoi(f[2][1:])
 			sess := mkSession(f[1], v)
 			r.aStore.PutSession(sess)
 			t := ha.SyncTypeAdd
@@ -679,60 +717,80 @@ func (r *run) doE2E(f []string) string {
 		if err != nil {
 			return "full"
 		}
-		// let the broadcaster drain the change (to the stream or, with no stream attached, into the void)
-		time.Sleep(15 * time.Millisecond)
+		if r.streaming {
+			// the change travels the stream: wait until the standby has received and applied it
+			if !waitFor(longWait, func() bool { return r.received() > before && r.standbyHas(f[1], v) }) {
+				return "timeout"
+			}
+			return "ok"
+		}
+		// no stream attached: the broadcaster drains the change into the void
+		if r.up {
+			r.gapPush = true
+		}
+		if !waitFor(longWait, func() bool { return r.active.PendingChangesForVerif() == 0 }) {
+			return "timeout"
+		}
+		// (the broadcaster has taken the change off the queue; handing it to zero clients is the next few
+		// instructions of the same goroutine, long before the next op's HTTP round trips can attach a client)
+		runtime.Gosched()
 		return "ok"
 	case "connect", "gapconnect":
 		if r.up {
 			return "already"
 		}
-		before := uint64(0)
-		if r.standby != nil {
-			before = r.standby.Stats().MessagesReceived
-		}
+		before := r.received()
 		r.px.allow(f[0] == "gapconnect")
 		if r.standby == nil {
 			r.startStandby()
 		}
-		r.up = true
+		r.up, r.gapPush = true, false
 		if f[0] == "gapconnect" {
-			// wait for the full sync to be answered; the stream request is held by the proxy
-			if !waitFor(45*time.Second, func() bool { return r.standby.Stats().MessagesReceived > before }) {
+			// wait for the full sync to be answered and applied (the counter moves after the store was
+			// written); the stream request is held by the proxy
+			if !waitFor(longWait, func() bool { return r.received() >= before+1 }) {
 				return "timeout"
 			}
-			time.Sleep(30 * time.Millisecond)
 			return "ok " + showTable(r.sStore.GetAllSessions())
 		}
-		if !waitFor(45*time.Second, r.standby.IsConnected) {
+		if !r.attached(before + 2) { // full sync + the stream's initial heartbeat
 			return "timeout"
 		}
-		time.Sleep(30 * time.Millisecond) // the active registers the client channel just after the headers
+		r.streaming = true
 		return "ok"
 	case "release":
 		if !r.up {
 			return "notconnected"
 		}
+		if r.streaming {
+			return "ok"
+		}
+		before := r.received()
 		r.px.releaseStream()
-		if !waitFor(45*time.Second, r.standby.IsConnected) {
+		if !r.attached(before + 1) { // the stream's initial heartbeat
 			return "timeout"
 		}
-		time.Sleep(30 * time.Millisecond)
+		r.streaming = true
 		return "ok"
 	case "cut":
 		if !r.up {
 			return "notconnected"
 		}
 		r.px.cut()
-		r.up = false
-		if !waitFor(5*time.Second, func() bool { return !r.standby.IsConnected() }) {
+		r.up, r.streaming = false, false
+		// both ends have noticed: the standby left connectToStream, the active unregistered the client channel
+		if !waitFor(longWait, func() bool { return !r.standby.IsConnected() && r.active.ClientCountForVerif() == 0 }) {
 			return "timeout"
 		}
-		time.Sleep(30 * time.Millisecond) // the active's stream handler notices the closed connection
 		return "ok"
 	case "settle":
-		// quiescent point: wait until the standby's table stops differing from the active's (or give up)
-		want := showTable(r.aStore.GetAllSessions())
-		waitFor(400*time.Millisecond, func() bool { return showTable(r.sStore.GetAllSessions()) == want })
+		// Quiescent point.  Every change pushed while the stream was attached has already been waited for, so the
+		// standby's table is final here.  Where the script itself has not set up a divergence (nothing pushed in
+		// the sync/attach gap, stream attached) equality is nevertheless awaited, generously, before reading.
+		if r.streaming && !r.gapPush {
+			want := showTable(r.aStore.GetAllSessions())
+			waitFor(10*time.Second, func() bool { return showTable(r.sStore.GetAllSessions()) == want })
+		}
 		return showTable(r.sStore.GetAllSessions())
 	case "active":
 		return showTable(r.aStore.GetAllSessions())
